@@ -16,12 +16,20 @@ class MachineryError(Exception):
     pass
 
 
-def _java(args, env=None, timeout=None, heap="4g"):
+def _java(args, env=None, timeout=None, heap="4g", to_file=None):
     cmd = ["java", "-XX:+UseParallelGC", "-Xmx" + heap, "-cp", JAR, "tlc2.TLC"] + args
     e = dict(os.environ)
     if env:
         e.update(env)
     t0 = time.time()
+    if to_file:
+        # large outputs (one line per explored transition) go to a file and are read as a stream
+        with open(to_file, "wb") as fh:
+            try:
+                p = subprocess.run(cmd, cwd=SPEC, env=e, stdout=fh, stderr=subprocess.STDOUT, timeout=timeout)
+            except subprocess.TimeoutExpired as ex:
+                raise MachineryError("TLC timeout after %ss: %s" % (timeout, " ".join(args)))
+        return p.returncode, None, time.time() - t0
     try:
         p = subprocess.run(cmd, cwd=SPEC, env=e, stdout=subprocess.PIPE,
                            stderr=subprocess.STDOUT, timeout=timeout)
@@ -53,6 +61,11 @@ _RE_STATES = re.compile(r"^(\d+) states generated, (\d+) distinct states found, 
 _RE_ERR = re.compile(r"^Error: (.*)$")
 
 
+def hash_tag(tag):
+    import hashlib
+    return int.from_bytes(hashlib.sha256(tag.encode()).digest()[:4], "big")
+
+
 def tla_set(items):
     return "{" + ", ".join(json.dumps(i) for i in items) + "}"
 
@@ -75,17 +88,33 @@ def run_mc(tag, module, cfg, workers=16, timeout=1200, simulate=None, seed=None,
     if seed is not None:
         args += ["-seed", str(seed)]
     args.append(module + ".tla")
-    rc, out, wall = _java(args, timeout=timeout, heap=heap)
+    outfile = os.path.join(OUT, tag, "tlc.out")
+    rc, _none, wall = _java(args, timeout=timeout, heap=heap, to_file=outfile)
     shutil.rmtree(meta, ignore_errors=True)
     res = {"rc": rc, "wall_s": round(wall, 2), "generated": 0, "distinct": 0,
-           "errors": [], "tr": [], "complete": False, "raw_tail": out[-3000:]}
-    for line in out.splitlines():
-        if keep_tr and line.startswith('"TR '):
-            try:
-                res["tr"].append(json.loads(json.loads(line)[3:]))
-            except Exception:
-                raise MachineryError("unparsable TR line: %r" % line[:200])
+           "errors": [], "tr": [], "complete": False, "raw_tail": "", "tr_total": 0}
+    # TR lines beyond MAXTR are reservoir-sampled (seeded): a bounded, reproducible subset
+    maxtr = int(os.environ.get("VERIF_MAXTR", "400000"))
+    import random
+    rng = random.Random(hash_tag(tag))
+    kept = []
+    tail = []
+    fh = open(outfile, "r", encoding="utf-8", errors="replace")
+    for line in fh:
+        line = line.rstrip("\n")
+        if line.startswith('"TR '):
+            if keep_tr:
+                res["tr_total"] += 1
+                if len(kept) < maxtr:
+                    kept.append(line)
+                else:
+                    j = rng.randrange(res["tr_total"])
+                    if j < maxtr:
+                        kept[j] = line
             continue
+        tail.append(line)
+        if len(tail) > 400:
+            del tail[:200]
         m = _RE_STATES.match(line)
         if m:
             res["generated"], res["distinct"] = int(m.group(1)), int(m.group(2))
@@ -95,6 +124,15 @@ def run_mc(tag, module, cfg, workers=16, timeout=1200, simulate=None, seed=None,
             res["errors"].append(m.group(1))
         if line.startswith("Model checking completed. No error has been found."):
             res["complete"] = True
+    fh.close()
+    os.remove(outfile)
+    out = "\n".join(tail)
+    res["raw_tail"] = out[-3000:]
+    for line in kept:
+        try:
+            res["tr"].append(json.loads(json.loads(line)[3:]))
+        except Exception:
+            raise MachineryError("unparsable TR line: %r" % line[:200])
     if simulate:
         m = re.search(r"(\d+) states checked", out)
         res["complete"] = True if not res["errors"] else False
